@@ -57,7 +57,8 @@ type Term struct {
 	Name   string   // for var / bound
 	P1, P2 int      // for extract (hi, lo) / zext,sext (n)
 	Bound  []*Term  // forall: bound vars
-	hasBnd bool     // contains a bound variable occurrence
+	hasBnd bool     // contains a bound variable occurrence (i.e. a quantifier or a bound variable)
+	open   bool     // a bound variable occurs free
 	key    string
 }
 
@@ -116,9 +117,50 @@ func (tb *TB) mk(t *Term) *Term {
 	t.ID = tb.nextID
 	if t.Op == "bound" {
 		t.hasBnd = true
+		t.open = true
+	}
+	// open: a bound variable occurs free (such a term cannot be named by a define-fun)
+	for _, a := range t.Args {
+		if a.open {
+			t.open = true
+		}
+	}
+	if t.Op == "forall" && t.open {
+		// closed unless a variable other than its own is free in the body
+		own := map[int]bool{}
+		for _, b := range t.Bound {
+			own[b.ID] = true
+		}
+		t.open = hasFreeBoundOtherThan(t.Args[0], own, map[int]bool{})
 	}
 	tb.terms[k] = t
 	return t
+}
+
+func hasFreeBoundOtherThan(t *Term, own map[int]bool, seen map[int]bool) bool {
+	if !t.open || seen[t.ID] {
+		return false
+	}
+	seen[t.ID] = true
+	if t.Op == "bound" {
+		return !own[t.ID]
+	}
+	if t.Op == "forall" {
+		inner := map[int]bool{}
+		for k := range own {
+			inner[k] = true
+		}
+		for _, b := range t.Bound {
+			inner[b.ID] = true
+		}
+		return hasFreeBoundOtherThan(t.Args[0], inner, map[int]bool{})
+	}
+	for _, a := range t.Args {
+		if hasFreeBoundOtherThan(a, own, seen) {
+			return true
+		}
+	}
+	return false
 }
 
 // ---- leaves
@@ -921,7 +963,7 @@ func (tb *TB) QueryOpt(asserts []*Term, want []*Term, logicALL bool, absMul bool
 		}
 	}
 	for _, t := range order {
-		if len(t.Args) == 0 || t.hasBnd {
+		if len(t.Args) == 0 || t.open {
 			continue
 		}
 		if refs[t.ID] > 1 || t.Op == "store" || t.Op == "ite" {
@@ -942,7 +984,7 @@ func (tb *TB) QueryOpt(asserts []*Term, want []*Term, logicALL bool, absMul bool
 		// possible (operands in [0, 2^(w/2-1))): sign, strict monotonicity in a shared factor
 		var prods []*Term
 		for _, t := range order {
-			if t.Op == "bvmul" && t.Args[0].Op != "bv" && t.Args[1].Op != "bv" && !t.hasBnd {
+			if t.Op == "bvmul" && t.Args[0].Op != "bv" && t.Args[1].Op != "bv" && !t.open {
 				prods = append(prods, t)
 			}
 		}
@@ -976,7 +1018,7 @@ func (tb *TB) QueryOpt(asserts []*Term, want []*Term, logicALL bool, absMul bool
 		}
 		// ground instances of commutativity and of the zero law for every abstracted product
 		for _, t := range order {
-			if t.Op == "bvmul" && t.Args[0].Op != "bv" && t.Args[1].Op != "bv" && !t.hasBnd {
+			if t.Op == "bvmul" && t.Args[0].Op != "bv" && t.Args[1].Op != "bv" && !t.open {
 				var a, b, m strings.Builder
 				p.str(t.Args[0], &a)
 				p.str(t.Args[1], &b)
